@@ -69,6 +69,20 @@ M = [
     ("c02-list-weight-first", "bond.py", "                self.weight = self.transitions.sum()", "                self.weight = self.transitions[0]", ["C02"]),
     ("c02-branch-revert", "token.py", '    for char in string:\n        if char == "(":\n            atom_to_bond.append(atom_to_bond[-1])\n        elif char == ")":\n            atom_to_bond.pop(-1)', '    for _ in range(string.count("(")):\n        atom_to_bond.append(atom_to_bond[-1])\n    for _ in range(string.count(")")):\n        atom_to_bond.pop(-1)', ["C02"]),
     ("c02-gauss-params-swapped", "distribution.py", "        self._mu, self._sigma = make_tuple(self._raw_text[len(\"gauss\") :])", "        self._sigma, self._mu = make_tuple(self._raw_text[len(\"gauss\") :])", ["C02", "C09"]),
+    ("c10-no-deepcopy-descriptors", "mol_gen.py", "        self.bond_descriptors = copy.deepcopy(token.bond_descriptors)", "        self.bond_descriptors = list(token.bond_descriptors)", ["C10"]),
+    ("c10-mirror-in-place", "molecule.py", "        mirror = copy.deepcopy(self)\n", "        mirror = copy.copy(self)\n", ["C10"]),
+    ("c10-terminal-weight-on-token", "stochastic.py", "                prefix.bond_descriptors[0].weight = self.left_terminal.weight\n", "                prefix.bond_descriptors[0].weight = self.left_terminal.weight\n                self.repeat_bonds[0].weight = self.repeat_bonds[0].weight * 2\n", ["C10", "C08"]),
+    ("c10-global-rng-draw", "stochastic.py", "            target_mol_weight = self.distribution.draw_mw(rng)", "            target_mol_weight = self.distribution.draw_mw()", ["C09"]),
+    ("c09-uniform-scale", "distribution.py", "stats.uniform(loc=self._low, scale=(self._high - self._low))", "stats.uniform(loc=self._low, scale=self._high)", ["C09"]),
+    ("c09-schulz-z", "distribution.py", "        self._z = self._Mn / (self._Mw - self._Mn)", "        self._z = self._Mw / (self._Mw - self._Mn)", ["C09"]),
+    ("c09-dispatch-order", "distribution.py", '    if "gauss" in distribution_text:\n        return Gauss(distribution_text)\n    if "uniform" in distribution_text:\n        return Uniform(distribution_text)', '    if "uniform" in distribution_text:\n        return Gauss(distribution_text.replace("uniform", "gauss"))\n    if "gauss" in distribution_text:\n        return Gauss(distribution_text)', ["C09", "C02", "C01"]),
+    ("c17-partner-own-weight", "stochastic_atom_graph.py", "                                stochastic_weight=other_bd.weight,", "                                stochastic_weight=graph_bd.weight,", ["C17"]),
+    ("c17-offset-bug", "stochastic_atom_graph.py", "                        second_atom = other_bd.atom_bonding_to + nested_offset[other_bd_token_idx]\n\n                        if other_bd_token_idx", "                        second_atom = other_bd.atom_bonding_to + nested_offset[graph_bd_token_idx]\n\n                        if other_bd_token_idx", ["C17"]),
+    ("c17-end-group-leaves", "stochastic_atom_graph.py", "            if graph_bd_token_idx >= len(element.repeat_tokens):\n                continue\n", "", ["C17"]),
+    ("c18-skip-static-fill", "graph_generate.py", "            # do-while advance\n            self._fill_static_edges(new_node)", "            # do-while advance\n            if len(self.graph) < 6:\n                self._fill_static_edges(new_node)", ["C18"]),
+    ("c18-wrong-bond-type", "graph_generate.py", '        new_bond_type = edge[1]["bond_type"]\n        new_node_idx = self._add_node(\n            new_stochastic_node,', '        new_bond_type = edge[1]["bond_type"] + 1\n        new_node_idx = self._add_node(\n            new_stochastic_node,', ["C18"]),
+    ("c19-skip-last-unit", "mol_prob.py", "                    new_mol._element_weights[new_mol._active_element] += pattern_mw\n                    token_mols.append((new_mol, token))\n\n                for token in match._big.elements[match._active_element].end_tokens:", "                    new_mol._element_weights[new_mol._active_element] += pattern_mw * 0.5\n                    token_mols.append((new_mol, token))\n\n                for token in match._big.elements[match._active_element].end_tokens:", ["C19"]),
+    ("c19-prev-not-updated", "mol_prob.py", "        self._previous = old_value\n", "        self._previous = 0.0\n", ["C19"]),
     ("c03-dollar-bonds-angle", "bond.py", '        if self.descriptor == "$" and other.descriptor == "$":\n            return True', '        if self.descriptor == "$" and other.descriptor in ("$", "<"):\n            return True', ["C03"]),
     ("c03-id-above-9", "bond.py", "        if self.descriptor_id != other.descriptor_id:", '        if self.descriptor_id != other.descriptor_id and (self.descriptor_id == "" or other.descriptor_id == "" or self.descriptor_id < 10):', ["C03"]),
 ]
